@@ -2,7 +2,8 @@
 C19 — the Householder QR kernels: `_vnacommon_qrd` factors (`U A = R`, `U` a product of the stored reflectors, unitary) and
 `_vnacommon_qrsolve` returns least-squares minimisers — for the executed definitions of Model/LinAlg.lean (the ones the driver
 runs against the C), every size, exact arithmetic over any field with a conjugation (`qrd_factors`, `qrsolve_normal`) and over ℂ
-with the C's own `-cexp(I carg a) sqrt s` (`complexOps_spec`, `qrsolve_least_squares`).
+with the C's own `-cexp(I carg a) sqrt s` (`complexOps_spec`, `qrsolve_least_squares`); `_vnacommon_qr` returns a unitary Q with
+`Q R = A` (`qr_factors`) and `_vnacommon_qrsolve2` solves the normal equations from them (`qrsolve2_normal`, `qr_qrsolve2_normal`).
 Hypotheses, stated outright: no step divides by a zero norm, no zero on the diagonal of R (the C's rank test), m ≥ n for the
 least-squares statement.
 -/
@@ -1050,5 +1051,358 @@ example : (∀ d, d < min 1 1 → stepNrm complexOps 1 1 (LA.qrdLoop complexOps 
     have z : LA.sumAbs2 complexOps #[(1 : ℂ)] 1 0 0 = 0 := rfl
     rw [z, add_zero, hα]
     norm_num
+
+end Libvna.QRLoop
+
+/-! ## `_vnacommon_qr` (explicit Q, R) and `_vnacommon_qrsolve2` -/
+
+open Libvna Finset
+namespace Libvna.QRLoop
+open Libvna.LULoop Matrix
+variable {K : Type} [Field K] [StarRing K] [Inhabited K]
+
+theorem size_mkR (m n : Nat) (f : Nat → Nat → K) : (LA.mkR m n f).size = m * n := by simp [LA.mkR]
+
+theorem get_mkR (m n : Nat) (f : Nat → Nat → K) {i j : Nat} (hi : i < m) (hj : j < n) :
+    LA.get (LA.mkR m n f) n i j = f i j := by
+  unfold LA.get LA.mkR
+  have hlt : i * n + j < m * n := by
+    calc i * n + j < i * n + n := by omega
+      _ = (i + 1) * n := by ring
+      _ ≤ m * n := Nat.mul_le_mul_right n hi
+  have hn : 0 < n := by omega
+  have h1 : (i * n + j) / n = i := by
+    rw [Nat.add_comm, Nat.add_mul_div_right _ _ hn, Nat.div_eq_of_lt hj]; simp
+  have h2 : (i * n + j) % n = j := by
+    rw [Nat.add_comm, Nat.add_mul_mod_self_right, Nat.mod_eq_of_lt hj]
+  simp [hlt, h1, h2]
+
+/-- a loop that writes row `i`, columns `c0 .. c0+cnt-1`, ascending, each value computed from the array so far -/
+def rowLoop (n i c0 : Nat) (f : Array K → Nat → K) : Nat → Array K → Array K
+  | 0, a => a
+  | t + 1, a => LA.set (rowLoop n i c0 f t a) n i (c0 + t) (f (rowLoop n i c0 f t a) (c0 + t))
+
+theorem rowLoop_spec (a : Array K) {m n i c0 : Nat} (f : Array K → Nat → K) (hs : a.size = m * n) (hi : i < m)
+    (cnt : Nat) (hc : c0 + cnt ≤ n) :
+    (rowLoop n i c0 f cnt a).size = m * n ∧
+    (∀ i' j, i' < m → j < n → ¬ (i' = i ∧ c0 ≤ j ∧ j < c0 + cnt) → LA.get (rowLoop n i c0 f cnt a) n i' j = LA.get a n i' j) ∧
+    (∀ t, t < cnt → LA.get (rowLoop n i c0 f cnt a) n i (c0 + t) = f (rowLoop n i c0 f t a) (c0 + t)) := by
+  induction cnt with
+  | zero => exact ⟨hs, fun _ _ _ _ _ => rfl, fun t ht => absurd ht (Nat.not_lt_zero t)⟩
+  | succ k ih =>
+    obtain ⟨hs', hun, hup⟩ := ih (by omega)
+    have hcn : c0 + k < n := by omega
+    simp only [rowLoop]
+    refine ⟨by rw [sizeR_set]; exact hs', ?_, ?_⟩
+    · intro i' j hi' hj hne
+      rw [getR_set _ _ hs' hi hcn hj]
+      have : ¬ (i = i' ∧ c0 + k = j) := by rintro ⟨rfl, rfl⟩; exact hne ⟨rfl, by omega, by omega⟩
+      rw [if_neg this]
+      exact hun i' j hi' hj (fun h => hne ⟨h.1, h.2.1, by omega⟩)
+    · intro t ht
+      rw [getR_set _ _ hs' hi hcn (by omega)]
+      by_cases htk : t = k
+      · subst htk; rw [if_pos ⟨rfl, rfl⟩]
+      · have : ¬ (i = i ∧ c0 + k = c0 + t) := by rintro ⟨_, h⟩; omega
+        rw [if_neg this]
+        exact hup t (by omega)
+
+theorem qUpd_eq (ops : LA.QROps K) (a : Array K) (m n d i : Nat) (s : K) (cnt : Nat) (q : Array K) :
+    LA.qUpd ops a m n d i s cnt q =
+      rowLoop m i d (fun q' c => LA.get q' m i c - (1 + 1) * s * ops.conj (LA.get a n c d)) cnt q := by
+  induction cnt with
+  | zero => rfl
+  | succ t ih => simp only [LA.qUpd, rowLoop, ih]
+
+theorem qDot_eq (a q : Array K) (m n d i cnt : Nat) :
+    LA.qDot a q m n d i cnt = ∑ t ∈ range cnt, LA.get q m i (d + t) * LA.get a n (d + t) d := by
+  induction cnt with
+  | zero => simp [LA.qDot]
+  | succ t ih => rw [LA.qDot, ih, sum_range_succ]
+
+theorem qtbDot_eq (ops : LA.QROps K) (q b : Array K) (m o i j cnt : Nat) :
+    LA.qtbDot ops q b m o i j cnt = ∑ k ∈ range cnt, ops.conj (LA.get q m k i) * LA.get b o k j := by
+  induction cnt with
+  | zero => simp [LA.qtbDot]
+  | succ t ih => rw [LA.qtbDot, ih, sum_range_succ]
+
+/-- row i, columns d .. d+cnt-1: `Q(i,c) -= 2 s conj A(c,d)`, nothing else touched -/
+theorem qUpd_spec (ops : LA.QROps K) (a q : Array K) {m n d i : Nat} (s : K) (hs : q.size = m * m) (hi : i < m)
+    (cnt : Nat) (hc : d + cnt ≤ m) :
+    (LA.qUpd ops a m n d i s cnt q).size = m * m ∧
+    (∀ i' j, i' < m → j < m → LA.get (LA.qUpd ops a m n d i s cnt q) m i' j =
+      if i' = i ∧ d ≤ j ∧ j < d + cnt then LA.get q m i j - (1 + 1) * s * ops.conj (LA.get a n j d) else LA.get q m i' j) := by
+  rw [qUpd_eq]
+  obtain ⟨h1, h2, h3⟩ := rowLoop_spec (m := m) (c0 := d) q (fun q' c => LA.get q' m i c - (1 + 1) * s * ops.conj (LA.get a n c d)) hs hi cnt hc
+  refine ⟨h1, ?_⟩
+  intro i' j hi' hj
+  split
+  · next h =>
+    obtain ⟨rfl, h1', h2'⟩ := h
+    obtain ⟨t, rfl⟩ : ∃ t, j = d + t := ⟨j - d, by omega⟩
+    rw [h3 t (by omega)]
+    obtain ⟨_, g2, _⟩ := rowLoop_spec (m := m) (c0 := d) q (fun q' c => LA.get q' m i' c - (1 + 1) * s * ops.conj (LA.get a n c d)) hs hi t (by omega)
+    show LA.get _ m i' (d + t) - _ = _
+    rw [g2 i' (d + t) hi hj (by rintro ⟨_, _, h⟩; omega)]
+  · next h => exact h2 i' j hi' hj h
+
+/-- rows 0 .. cnt-1 multiplied from the right by reflector d -/
+theorem qRows_spec (ops : LA.QROps K) (a q : Array K) {m n d : Nat} (hs : q.size = m * m) (hd : d ≤ m) (cnt : Nat) (hc : cnt ≤ m) :
+    (LA.qRows ops a m n d cnt q).size = m * m ∧
+    (∀ i j, i < m → j < m → LA.get (LA.qRows ops a m n d cnt q) m i j =
+      if i < cnt ∧ d ≤ j then
+        LA.get q m i j - (1 + 1) * (∑ t ∈ range (m - d), LA.get q m i (d + t) * LA.get a n (d + t) d) * ops.conj (LA.get a n j d)
+      else LA.get q m i j) := by
+  induction cnt with
+  | zero =>
+    refine ⟨hs, ?_⟩
+    intro i j _ _; rw [if_neg (by omega)]; rfl
+  | succ c ih =>
+    obtain ⟨hs', hg⟩ := ih (by omega)
+    simp only [LA.qRows]
+    have hcm : c < m := by omega
+    obtain ⟨u1, u2⟩ := qUpd_spec (m := m) (n := n) (d := d) (i := c) ops a (LA.qRows ops a m n d c q) (LA.qDot a (LA.qRows ops a m n d c q) m n d c (m - d)) hs' hcm (m - d) (by omega)
+    refine ⟨u1, ?_⟩
+    intro i j hi hj
+    rw [u2 i j hi hj]
+    by_cases hic : i = c
+    · subst hic
+      by_cases hdj : d ≤ j
+      · rw [if_pos ⟨rfl, hdj, by omega⟩, if_pos ⟨by omega, hdj⟩, qDot_eq, hg i j hi hj, if_neg (by omega)]
+        congr 2
+        congr 1
+        apply sum_congr rfl
+        intro t ht
+        have ht' := mem_range.mp ht
+        rw [hg i (d + t) hi (by omega), if_neg (by omega)]
+      · rw [if_neg (by omega), if_neg (by omega), hg i j hi hj, if_neg (by omega)]
+    · rw [if_neg (by omega), hg i j hi hj]
+      by_cases h : i < c ∧ d ≤ j
+      · rw [if_pos h, if_pos ⟨by omega, h.2⟩]
+      · rw [if_neg h, if_neg (by omega)]
+
+end Libvna.QRLoop
+
+namespace Libvna.QRLoop
+open Libvna.LULoop Matrix Finset
+variable {K : Type} [Field K] [StarRing K] [Inhabited K]
+
+def Qmat (q : Array K) (m : Nat) : Matrix (Fin m) (Fin m) K := fun i j => LA.get q m i j
+
+theorem mul_reflector_apply {m : Nat} (Q : Matrix (Fin m) (Fin m) K) (v : Fin m → K) (i j : Fin m) :
+    (Q * QR.reflector v) i j = Q i j - (1 + 1) * (∑ l, Q i l * v l) * star (v j) := by
+  unfold QR.reflector
+  rw [Matrix.mul_sub, Matrix.mul_one, Matrix.mul_smul, Matrix.sub_apply, Matrix.smul_apply, Matrix.mul_apply]
+  simp only [vecMulVec_apply, Pi.star_apply, smul_eq_mul]
+  congr 1
+  rw [Finset.mul_sum, Finset.mul_sum, Finset.sum_mul]
+  apply sum_congr rfl; intro l _; ring
+
+/-- one pass of the `diagonal` loop of `_vnacommon_qr`: `Q ← Q H_d` -/
+theorem qRows_matrix (ops : LA.QROps K) {P : K → Prop} (hops : OpsSpec ops P) (a q : Array K) {m n d : Nat}
+    (hs : q.size = m * m) (hd : d ≤ m) :
+    (LA.qRows ops a m n d m q).size = m * m ∧
+    Qmat (LA.qRows ops a m n d m q) m = Qmat q m * QR.reflector (vvec a m n d) := by
+  obtain ⟨s1, g1⟩ := qRows_spec ops a q (n := n) hs hd m (le_refl _)
+  refine ⟨s1, ?_⟩
+  ext i j
+  rw [mul_reflector_apply]
+  unfold Qmat
+  rw [g1 i j i.2 j.2]
+  have hsum : ∑ l : Fin m, LA.get q m i l * vvec a m n d l = ∑ t ∈ range (m - d), LA.get q m i (d + t) * LA.get a n (d + t) d := by
+    have : ∀ l : Fin m, LA.get q m i l * vvec a m n d l = if (l : Nat) < d then 0 else LA.get q m i l * LA.get a n l d := by
+      intro l; unfold vvec; split <;> simp
+    rw [Finset.sum_congr rfl (fun l _ => this l), sum_fin_shift hd (fun l => LA.get q m i l * LA.get a n l d)]
+  rw [hsum]
+  by_cases hdj : d ≤ (j : Nat)
+  · rw [if_pos ⟨i.2, hdj⟩, hops.conj_eq]
+    unfold vvec; rw [if_neg (by omega)]
+  · rw [if_neg (by omega)]
+    unfold vvec; rw [if_pos (by omega)]; simp
+
+/-- the accumulated matrix: `Q₀ H_0 H_1 ⋯ H_{k-1} = Q₀ (H_{k-1} ⋯ H_0)ᴴ` -/
+theorem qAccum_matrix (ops : LA.QROps K) {P : K → Prop} (hops : OpsSpec ops P) (a q0 : Array K) {m n : Nat}
+    (hs : q0.size = m * m) (k : Nat) (hk : k ≤ m) :
+    (LA.qAccum ops a m n k q0).size = m * m ∧
+    Qmat (LA.qAccum ops a m n k q0) m = Qmat q0 m * (Uprod a m n k)ᴴ := by
+  induction k with
+  | zero => exact ⟨hs, by simp [LA.qAccum, Uprod]⟩
+  | succ d ih =>
+    obtain ⟨s1, e1⟩ := ih (by omega)
+    obtain ⟨s2, e2⟩ := qRows_matrix ops hops a (LA.qAccum ops a m n d q0) (n := n) (d := d) s1 (by omega)
+    refine ⟨s2, ?_⟩
+    show Qmat (LA.qRows ops a m n d m (LA.qAccum ops a m n d q0)) m = _
+    rw [e2, e1]
+    simp only [Uprod]
+    rw [conjTranspose_mul, QR.reflector_hermitian, Matrix.mul_assoc]
+
+/-- **`_vnacommon_qr` factors**: the returned Q is unitary and `Q R = A` (every m, n; no step divides by a zero norm) -/
+theorem qr_factors (ops : LA.QROps K) {P : K → Prop} (hops : OpsSpec ops P) (h2 : (2 : K) ≠ 0)
+    (a0 : Array K) (m n : Nat) (hs : a0.size = m * n)
+    (hnz : ∀ d, d < min m n → stepNrm ops m n (LA.qrdLoop ops m n d (st0 a0 m n)) d ≠ 0) :
+    let res := LA.qr ops a0 m n
+    res.1.size = m * m ∧ res.2.1.size = m * n ∧
+    (Qmat res.1 m)ᴴ * Qmat res.1 m = 1 ∧
+    Qmat res.1 m * (Matrix.of fun (i : Fin m) (j : Fin n) => LA.get res.2.1 n i j) = A0mat a0 m n ∧
+    (∀ (i : Fin m) (j : Fin n), LA.get res.2.1 n i j = Rmat (LA.qrd ops a0 m n).a (LA.qrd ops a0 m n).dv m n i j) := by
+  intro res
+  obtain ⟨sa, sd, hU, hUA⟩ := qrd_factors ops hops h2 a0 m n hs hnz
+  set st := LA.qrd ops a0 m n with hst
+  have hq : res.1 = LA.qAccum ops st.a m n (min m n) (LA.mkR m m fun i j => if i = j then 1 else 0) := rfl
+  have hr : res.2.1 = LA.mkR m n (fun i j => if i < j then LA.get st.a n i j else if i = j then st.dv[j]! else 0) := rfl
+  obtain ⟨sq, eq⟩ := qAccum_matrix ops hops st.a (LA.mkR m m fun i j => if i = j then (1 : K) else 0) (n := n) (size_mkR m m _) (min m n) (Nat.min_le_left m n)
+  have hid : Qmat (LA.mkR m m fun i j => if i = j then (1 : K) else 0) m = 1 := by
+    ext i j
+    unfold Qmat
+    rw [get_mkR m m _ i.2 j.2, Matrix.one_apply]
+    by_cases h : i = j
+    · subst h; simp
+    · have : ¬ ((i : Nat) = (j : Nat)) := fun e => h (Fin.ext e)
+      simp [h, this]
+  rw [hid, Matrix.one_mul] at eq
+  have hU' : Uprod st.a m n (min m n) * (Uprod st.a m n (min m n))ᴴ = 1 := mul_eq_one_comm.mp hU
+  have hRm : (Matrix.of fun (i : Fin m) (j : Fin n) => LA.get res.2.1 n i j) = Rmat st.a st.dv m n := by
+    ext i j
+    rw [Matrix.of_apply, hr, get_mkR m n _ i.2 j.2]; rfl
+  refine ⟨by rw [hq]; exact sq, by rw [hr]; exact size_mkR m n _, ?_, ?_, ?_⟩
+  · rw [hq, eq, conjTranspose_conjTranspose]; exact hU'
+  · rw [hRm, hq, eq, ← hUA, ← Matrix.mul_assoc, hU, Matrix.one_mul]
+  · intro i j; have := congrFun (congrFun hRm i) j; rwa [Matrix.of_apply] at this
+
+end Libvna.QRLoop
+
+namespace Libvna.QRLoop
+open Libvna.LULoop Matrix Finset
+variable {K : Type} [Field K] [StarRing K] [Inhabited K]
+
+/-- back substitution of `_vnacommon_qrsolve2`: rows diag-cnt .. diag-1 of column j of X, nothing else touched -/
+theorem qs2Back_spec (ops : LA.QROps K) (q r b x : Array K) {m n o j diag : Nat} (hx : x.size = n * o) (hj : j < o) (hdn : diag ≤ n)
+    (cnt : Nat) (hc : cnt ≤ diag) :
+    (LA.qs2Back ops q r b m n o j diag cnt x).size = n * o ∧
+    (∀ i c, i < n → c < o → ¬ (c = j ∧ diag - cnt ≤ i ∧ i < diag) → LA.get (LA.qs2Back ops q r b m n o j diag cnt x) o i c = LA.get x o i c) ∧
+    (∀ i, diag - cnt ≤ i → i < diag → LA.get (LA.qs2Back ops q r b m n o j diag cnt x) o i j =
+      (LA.qtbDot ops q b m o i j m - ∑ t ∈ range (diag - (i + 1)), LA.get r n i (i + 1 + t) * LA.get (LA.qs2Back ops q r b m n o j diag cnt x) o (i + 1 + t) j)
+        / LA.get r n i i) := by
+  induction cnt with
+  | zero => exact ⟨hx, fun _ _ _ _ _ => rfl, fun i h1 h2 => by omega⟩
+  | succ c ih =>
+    obtain ⟨s1, u1, r1⟩ := ih (by omega)
+    simp only [LA.qs2Back]
+    set x' := LA.qs2Back ops q r b m n o j diag c x with hx'
+    have hi0 : diag - 1 - c < n := by omega
+    refine ⟨by rw [sizeR_set]; exact s1, ?_, ?_⟩
+    · intro i cc hi hcc hne
+      rw [getR_set _ _ s1 hi0 hj hcc, if_neg (by rintro ⟨rfl, rfl⟩; exact hne ⟨rfl, by omega, by omega⟩)]
+      exact u1 i cc hi hcc (by rintro ⟨h1, h2, h3⟩; exact hne ⟨h1, by omega, h3⟩)
+    · intro i h1 h2
+      have hsum : ∀ i', diag - 1 - c ≤ i' → ∀ v,
+          ∑ t ∈ range (diag - (i' + 1)), LA.get r n i' (i' + 1 + t) * LA.get (LA.set x' o (diag - 1 - c) j v) o (i' + 1 + t) j =
+          ∑ t ∈ range (diag - (i' + 1)), LA.get r n i' (i' + 1 + t) * LA.get x' o (i' + 1 + t) j := by
+        intro i' hi' v
+        apply sum_congr rfl; intro t ht
+        have ht' := mem_range.mp ht
+        rw [getR_set _ _ s1 hi0 hj hj, if_neg (by rintro ⟨h, _⟩; omega)]
+      rw [getR_set _ _ s1 hi0 hj hj]
+      by_cases hic : i = diag - 1 - c
+      · subst hic
+        rw [if_pos ⟨rfl, rfl⟩, hsum _ (le_refl _), accSub_eq]
+      · rw [if_neg (by rintro ⟨h, _⟩; exact hic h.symm), hsum i (by omega)]
+        exact r1 i (by omega) h2
+
+theorem qs2Cols_spec (ops : LA.QROps K) (q r b x0 : Array K) {m n o : Nat} (hx : x0.size = n * o) (cnt : Nat) (hc : cnt ≤ o) :
+    (LA.qs2Cols ops q r b m n o cnt x0).size = n * o ∧
+    (∀ j, j < cnt → ∀ i, i < min m n → LA.get (LA.qs2Cols ops q r b m n o cnt x0) o i j =
+      (LA.qtbDot ops q b m o i j m - ∑ t ∈ range (min m n - (i + 1)), LA.get r n i (i + 1 + t) * LA.get (LA.qs2Cols ops q r b m n o cnt x0) o (i + 1 + t) j)
+        / LA.get r n i i) := by
+  induction cnt with
+  | zero => exact ⟨hx, fun j h => absurd h (Nat.not_lt_zero j)⟩
+  | succ c ih =>
+    obtain ⟨s1, hrec⟩ := ih (by omega)
+    have hco : c < o := by omega
+    simp only [LA.qs2Cols]
+    obtain ⟨r1, r2, r3⟩ := qs2Back_spec ops q r b (LA.qs2Cols ops q r b m n o c x0) (m := m) s1 hco (Nat.min_le_right m n) (min m n) (le_refl _)
+    refine ⟨r1, ?_⟩
+    intro j hj i hi
+    by_cases h : j = c
+    · subst h; rw [r3 i (by omega) hi]
+    · have hn : i < n := lt_of_lt_of_le hi (Nat.min_le_right m n)
+      rw [r2 i j hn (by omega) (by rintro ⟨h', _⟩; exact h h'), hrec j (by omega) i hi]
+      congr 2
+      apply sum_congr rfl; intro t ht
+      have ht' := mem_range.mp ht
+      rw [r2 (i + 1 + t) j (by omega) (by omega) (by rintro ⟨h', _⟩; exact h h')]
+
+/-- **`_vnacommon_qrsolve2` solves the normal equations** of any `A = Q R` with Q unitary, R upper triangular with a non-zero
+diagonal, m ≥ n: for every column, `Aᴴ (A x - b) = 0` -/
+theorem qrsolve2_normal (ops : LA.QROps K) {P : K → Prop} (hops : OpsSpec ops P) (q r b : Array K) (m n o : Nat) (hmn : n ≤ m)
+    (A : Matrix (Fin m) (Fin n) K)
+    (hQ : (Qmat q m)ᴴ * Qmat q m = 1) (hQR : Qmat q m * (Matrix.of fun (i : Fin m) (j : Fin n) => LA.get r n i j) = A)
+    (hR : ∀ (i : Fin m) (j : Fin n), (j : Nat) < i → LA.get r n i j = 0) (hd : ∀ i, i < n → LA.get r n i i ≠ 0)
+    (kk : Nat) (hkk : kk < o) :
+    Aᴴ *ᵥ (A *ᵥ (fun j : Fin n => LA.get (LA.qrsolve2 ops q r b m n o) o j kk) - bcol b m o kk) = 0 := by
+  have hr : min m n = n := Nat.min_eq_right hmn
+  obtain ⟨_, hrec⟩ := qs2Cols_spec ops q r b (Array.replicate (n * o) (0 : K)) (m := m) (n := n) (by simp) o (le_refl _)
+  have hX : LA.qrsolve2 ops q r b m n o = LA.qs2Cols ops q r b m n o o (Array.replicate (n * o) 0) := rfl
+  rw [hX]
+  set X := LA.qs2Cols ops q r b m n o o (Array.replicate (n * o) 0) with hXdef
+  set R : Matrix (Fin m) (Fin n) K := Matrix.of fun (i : Fin m) (j : Fin n) => LA.get r n i j with hRdef
+  have hQ' : Qmat q m * (Qmat q m)ᴴ = 1 := mul_eq_one_comm.mp hQ
+  apply normal_of_qr A R (Qmat q m)ᴴ _ _ (by rw [conjTranspose_conjTranspose]; exact hQ') (by rw [← hQR, ← Matrix.mul_assoc, hQ, Matrix.one_mul])
+  · intro i j hi
+    rw [hRdef, Matrix.of_apply]
+    exact hR i j (by have := j.2; omega)
+  · intro i hi
+    have hrec' := hrec kk hkk i (by omega)
+    rw [hr, qtbDot_eq] at hrec'
+    have hdi := hd i hi
+    -- the right-hand side: (Qᴴ b)_i
+    have hrhs : ((Qmat q m)ᴴ *ᵥ bcol b m o kk) i = ∑ k ∈ range m, ops.conj (LA.get q m k i) * LA.get b o k kk := by
+      simp only [mulVec, dotProduct, conjTranspose_apply, Qmat, bcol]
+      rw [← Fin.sum_univ_eq_sum_range (fun k => ops.conj (LA.get q m k i) * LA.get b o k kk) m]
+      apply Finset.sum_congr rfl; intro k _; rw [hops.conj_eq]
+    rw [hrhs]
+    simp only [mulVec, dotProduct]
+    have split : ∀ j : Fin n, R i j * LA.get X o j kk =
+        (if (i : Nat) < (j : Nat) then LA.get r n i j * LA.get X o j kk else 0) +
+        (if (i : Nat) = (j : Nat) then LA.get r n i i * LA.get X o i kk else 0) := by
+      intro j
+      rw [hRdef, Matrix.of_apply]
+      by_cases h1 : (i : Nat) < j
+      · rw [if_pos h1, if_neg (by omega), add_zero]
+      · rw [if_neg h1, zero_add]
+        by_cases h2 : (i : Nat) = j
+        · rw [if_pos h2, h2]
+        · rw [if_neg h2, hR i j (by omega), zero_mul]
+    rw [Finset.sum_congr rfl (fun j _ => split j), Finset.sum_add_distrib,
+      ← sum_above_eq_fin hi (fun j => LA.get r n i j * LA.get X o j kk)]
+    have single : ∑ j : Fin n, (if (i : Nat) = (j : Nat) then LA.get r n i i * LA.get X o i kk else 0) = LA.get r n i i * LA.get X o i kk := by
+      rw [Finset.sum_eq_single (⟨i, hi⟩ : Fin n)]
+      · simp
+      · intro j _ hj; rw [if_neg (fun e => hj (Fin.ext e.symm))]
+      · intro h; exact absurd (Finset.mem_univ _) h
+    rw [single, hrec']
+    field_simp
+    ring
+
+/-- `_vnacommon_qr` followed by `_vnacommon_qrsolve2` (the Gauss–Newton step of the iterative solver): the normal equations -/
+theorem qr_qrsolve2_normal (ops : LA.QROps K) {P : K → Prop} (hops : OpsSpec ops P) (h2 : (2 : K) ≠ 0)
+    (a0 b : Array K) (m n o : Nat) (hs : a0.size = m * n) (hmn : n ≤ m)
+    (hnz : ∀ d, d < min m n → stepNrm ops m n (LA.qrdLoop ops m n d (st0 a0 m n)) d ≠ 0)
+    (hd : ∀ i, i < n → (LA.qrd ops a0 m n).dv[i]! ≠ 0) (kk : Nat) (hkk : kk < o) :
+    let res := LA.qr ops a0 m n
+    (A0mat a0 m n)ᴴ *ᵥ (A0mat a0 m n *ᵥ (fun j : Fin n => LA.get (LA.qrsolve2 ops res.1 res.2.1 b m n o) o j kk) - bcol b m o kk) = 0 := by
+  intro res
+  obtain ⟨_, _, hQ, hQR, hRm⟩ := qr_factors ops hops h2 a0 m n hs hnz
+  apply qrsolve2_normal ops hops res.1 res.2.1 b m n o hmn (A0mat a0 m n) hQ hQR
+  · intro i j hji
+    rw [hRm i j]; unfold Rmat
+    rw [if_neg (by omega), if_neg (by omega)]
+  · intro i hi
+    have := hRm ⟨i, by omega⟩ ⟨i, hi⟩
+    simp only [] at this
+    rw [this]; unfold Rmat
+    simp only [lt_irrefl, if_false, if_true]
+    exact hd i hi
+  · exact hkk
 
 end Libvna.QRLoop
